@@ -91,7 +91,7 @@ const MEDIA: [&str; 6] = ["dc", "audio", "video", "audio+video", "dc+audio+video
 const BUNDLES: [&str; 3] = ["Balanced", "MaxCompat", "MaxBundle"];
 const MUXES: [&str; 4] = ["Require", "Negotiate", "Req/Neg", "Neg/Req"];
 const ICE_WEBRTC: [&str; 8] = ["full", "lite-ans", "lite-off", "tcp", "tcp-only", "tcp-only/off-listens", "tcpmux-ans", "udpmux-ans"];
-const ICE_DIRECT: [&str; 3] = ["none", "lite-ans", "lite-off"];
+const ICE_DIRECT: [&str; 5] = ["none", "lite-ans", "lite-off", "udpmux-ans", "udpmux-off"];
 const LATCHES: [&str; 3] = ["off", "p0", "p3"];
 const COMPATS: [&str; 2] = ["Standard", "LegacySip"];
 const OFFERERS: [&str; 2] = ["A", "B"];
@@ -104,7 +104,7 @@ const OFF_LISTENS: &str = "tcp-only/off-listens";
 /// The value sets of the first-round lattice (kept as a region of the quick tier in full).
 const MUXES_R1: [&str; 2] = ["Require", "Negotiate"];
 const ICE_WEBRTC_R1: [&str; 5] = ["full", "lite-ans", "tcp", "tcp-only", "udpmux-ans"];
-const ICE_DIRECT_R1: [&str; 2] = ["none", "lite-ans"];
+const ICE_DIRECT_R1: [&str; 4] = ["none", "lite-ans", "udpmux-ans", "udpmux-off"];
 
 /// Per-endpoint ICE profiles for the "pair" region: each END gets its own profile, so that
 /// asymmetric combinations (the shared UDP socket on one end and ICE-TCP only on the other, ...)
@@ -554,8 +554,10 @@ fn make_cfg(p: &Point, answerer: bool, mux_port: u16, turn: Option<&IceServer>) 
                 c.tcp_port_range_end = Some(if p.ice == "tcpmux-ans" { mux_port } else { mux_port.saturating_add(2) });
             }
         }
-        "udpmux-ans" => {
-            if answerer {
+        "udpmux-ans" | "udpmux-off" => {
+            // the process-wide single-port UDP socket on one end (WebRtc: the answerer; direct
+            // modes: either end - there no connectivity check ever teaches the demultiplexer)
+            if (p.ice == "udpmux-ans") == answerer {
                 c.ice_udp_mux = true;
                 c.ice_udp_mux_port = Some(mux_port);
             }
@@ -1018,7 +1020,7 @@ async fn run_point_async(p: Point, t: Timeouts) -> Outcome {
         None
     };
     let mux_port = match p.ice {
-        "udpmux-ans" => free_udp_port(loopback(&p)),
+        "udpmux-ans" | "udpmux-off" => free_udp_port(loopback(&p)),
         "tcp-only" | "tcp-only/off-listens" | "tcpmux-ans" => free_tcp_port(loopback(&p)),
         _ => 0,
     };
